@@ -137,6 +137,27 @@ def fresh_results(res, name, call, desc):
     return True
 
 
+def tup(x):
+    return tuple(tup(y) if isinstance(y, (list, tuple)) else y for y in x)
+
+
+def same_for_forms(res, name, calls, desc):
+    """the container type of an argument (str / list / tuple, where the function accepts them) does not change the result"""
+    outs = []
+    for form, call in calls:
+        try:
+            r = call()
+            if hasattr(r, '__next__'):
+                r = list(r)
+            outs.append((form, _freeze(r)))
+        except Exception as e:
+            outs.append((form, 'raises ' + type(e).__name__))
+    if any(o[1] != outs[0][1] for o in outs):
+        res.violation(name + ':argument-form-changes-result', desc, ' | '.join('%s: %r' % (f, o) for f, o in outs)[:300], 'the same result for every accepted argument form')
+        return False
+    return True
+
+
 def object_error_kinds(res, dsdobjects, strings):
     """complex construction and structural views on ill-formed structures: only SecondaryStructureError
     (or the construction-time ObjectInitError / SingletonError families) may escape, never a table"""
